@@ -19,7 +19,7 @@ type Alias = Identifier;
 
 // ---- types, taken from the repository ---------------------------------------------------------
 //@ type sylt-tokenizer/src/token.rs enum Token
-//@ type sylt-tokenizer/src/tokenizer.rs struct Span keep=Copy clone=keep eq=none
+//@ type sylt-tokenizer/src/tokenizer.rs struct Span keep=Copy clone=ext eq=none
 //@ type sylt-parser/src/parser.rs enum Prec keep=Copy,PartialOrd clone=keep eq=keep
 //@ type sylt-parser/src/parser.rs enum VarKind keep=Copy clone=keep eq=keep
 //@ include common/parser_ast.tpl
@@ -130,6 +130,20 @@ pub open spec fn node_matches(op: Token, e: Expression, lhs: Expression) -> bool
         _ => true,
     }
 }
+/// C14: what `lhs -> rhs` becomes: the receiver is prepended to the innermost call of the chain
+pub open spec fn prepend_kind(sp: Span, lhs: Expression, rhs: Expression) -> Option<ExpressionKind> decreases rhs {
+    match rhs.kind {
+        ExpressionKind::Get(a) => match a.kind {
+            AssignableKind::Call(callee, args) => Some(ExpressionKind::Get(Assignable { kind: AssignableKind::ArrowCall(Box::new(lhs), callee, args), span: rhs.span })),
+            AssignableKind::ArrowCall(pre, callee, args) => match prepend_kind(sp, lhs, *pre) {
+                Some(k) => Some(ExpressionKind::Get(Assignable { kind: AssignableKind::ArrowCall(Box::new(Expression { span: sp, ty: None, kind: k }), callee, args), span: rhs.span })),
+                None => None,
+            },
+            _ => None,
+        },
+        _ => None,
+    }
+}
 /// right operand of a binary node
 pub open spec fn rhs_of(e: Expression) -> Expression {
     match e.kind {
@@ -156,6 +170,10 @@ macro_rules! raise_syntax_error {
 // ---- Context: the token cursor ---------------------------------------------------------------
 impl<'a> Context<'a> {
     /// the token the parser looks at: `tokens[curr]`, `EOF` past the end
+    /// the span of the current token (zero span past the end)
+    pub closed spec fn span_s(&self) -> Span {
+        if self.curr < self.spans@.len() { self.spans@[self.curr as int] } else { Span { file_id: self.file_id, line_start: 0, line_end: 0, col_start: 0, col_end: 0 } }
+    }
     pub closed spec fn tok(&self) -> Token {
         if self.curr < self.tokens@.len() { self.tokens@[self.curr as int] } else { Token::EOF }
     }
@@ -166,6 +184,7 @@ impl<'a> Context<'a> {
 //@   ret r
 //@   spec
         ensures *r.0 == self.tok(), //# C13 ctx.peek_is_current_token
+            r.1 == self.span_s(),
 //@   endspec
 //@ end
 
@@ -181,6 +200,10 @@ impl<'a> Context<'a> {
 //@ fn sylt-parser/src/parser.rs span
 //@   in <'a> Context<'a>
 //@   props C07
+//@   ret r
+//@   spec
+        ensures r == self.span_s(),
+//@   endspec
 //@ end
 
 //@ fn sylt-parser/src/parser.rs skip
@@ -243,6 +266,10 @@ impl Span {
 //@ fn sylt-tokenizer/src/tokenizer.rs zero
 //@   in Span
 //@   props C07
+//@   ret r
+//@   spec
+        ensures r == (Span { file_id, line_start: 0, line_end: 0, col_start: 0, col_end: 0 }),
+//@   endspec
 //@ end
 }
 
@@ -463,6 +490,9 @@ impl Next for Prec {
         requires pe_shape(lhs), pe_shape(rhs), //# C07 prepend.pre.shape
         ensures r is Ok ==> top_rank(r->Ok_0.1) == 100 && wf(r->Ok_0.1), //# C13 prepend.atom
             r is Ok ==> pe_shape(r->Ok_0.1), //# C07 prepend.result_shape
+            r is Ok ==> r->Ok_0.1.span == ctx.span_s() && r->Ok_0.1.ty is None,
+            r is Ok ==> Some(r->Ok_0.1.kind) == prepend_kind(ctx.span_s(), lhs, rhs), //# C14 prepend.receiver_becomes_the_first_argument_of_the_innermost_call
+            r is Err <==> prepend_kind(ctx.span_s(), lhs, rhs) is None, //# C14 prepend.only_calls_can_follow_an_arrow
 //@   endspec
 //@   endinner
 //@   ghost before
